@@ -1,7 +1,9 @@
 // Package a18: in-process targets for the C10 correspondence harness.
 //
 //   - Target: a raw TCP HTTP/1.1 server (also a CONNECT proxy) that answers what the request
-//     header X-Verif asks for: "ok:<status>", "reset", "stall", "trunc:<status>", "truncrst:<status>".
+//     header X-Verif asks for: "ok:<status>", "reset", "stall", "trunc:<status>", "truncrst:<status>";
+//     a header X-Delay: <ms> makes it wait that long before it answers (a slow target); the paths
+//     of the requests it has received are kept (TakeServed).
 //   - GrpcTarget: the examples/grpc/server service + reflection whose interceptor returns the
 //     status code named by the incoming metadata key x-status.
 package a18
@@ -34,6 +36,17 @@ type Target struct {
 	connectMode string
 	requests    int
 	connects    int
+	served      []string
+}
+
+// TakeServed returns the paths of the plain requests received since the last call (in the order
+// of arrival) and forgets them.
+func (t *Target) TakeServed() []string {
+	t.mu.Lock()
+	defer t.mu.Unlock()
+	s := t.served
+	t.served = nil
+	return s
 }
 
 func NewTarget() (*Target, error) {
@@ -120,7 +133,13 @@ func (t *Target) serve(c net.Conn) {
 		_, _ = io.Copy(io.Discard, req.Body)
 		t.mu.Lock()
 		t.requests++
+		if len(t.served) < 1<<16 {
+			t.served = append(t.served, req.URL.Path)
+		}
 		t.mu.Unlock()
+		if d, _ := strconv.Atoi(req.Header.Get("X-Delay")); d > 0 && d <= 5000 {
+			time.Sleep(time.Duration(d) * time.Millisecond)
+		}
 		what := req.Header.Get("X-Verif")
 		kind, arg, _ := strings.Cut(what, ":")
 		st, _ := strconv.Atoi(arg)
